@@ -143,7 +143,7 @@ def run(t, budget=1.0):
                 if nv * bv >= 2 ** 31:
                     res.nontriv(common.text_hash(entry.dir, line))
                 res.cls("flat_group_header_only_size")
-                for cfg in entry.status["configs"]:
+                for cfg in entry.value_configs():
                     resp = pc.call(entry, cfg, line)
                     res.count()
                     if resp != "OK gsize=%d n=%d" % (expv, nv):
@@ -167,7 +167,7 @@ def run(t, budget=1.0):
                 if max(counts + [0]) >= 2 ** 16:
                     res.nontriv(common.text_hash(entry.dir, line))
                 res.cls("trait_big_counts")
-                for cfg in entry.status["configs"]:
+                for cfg in entry.value_configs():
                     resp = pc.call(entry, cfg, line)
                     res.count()
                     if resp != "OK trait=%d" % expv:
@@ -184,7 +184,7 @@ def run(t, budget=1.0):
         if len(res.samples) < 5 and nontrivial and (len(res.samples) < 2 or res.evaluations % 301 < 9):
             res.sample({"schema": entry.dir.split("/")[-1], "message": L.name, "expected": exp[:30]})
         tcs = trait_cases(M, L, vals)
-        for cfg in entry.status["configs"]:
+        for cfg in entry.value_configs():
             resp = pc.call(entry, cfg, "sizes %d %s" % (mi, img.hex()))
             res.count()
             got = resp[3:].split() if resp.startswith("OK ") else None
